@@ -20,6 +20,7 @@ EXPLANATION = (
     "rebuilds filters_tagged from tagged_filters_all filtered by contains(tag); tag_exists is "
     "contains on the same set; (4) Engine::deserialize reads the caller's tags before overwriting "
     "the blocker and re-applies them after."
+    ' Round 6: nothing is removed from tagged_filters_all (or any rule list) after the routing (C01.5 no-shrinking-call); the tag gate may be written as a closure over Option::map or as a match on filter.tag.'
 )
 NOT_DECIDED = ("Which concrete rules match concrete requests (C01/C02); tag x redirect / removeparam "
                "/ generichide rules are inert by documented design and reported as informational.")
@@ -56,6 +57,8 @@ def check(run):
         from . import C06 as _C06c
         bc = run.borrow("C06", only=r"tags_with_set|key-is-rule-address|evictors", why="every tag switch re-allocates the active tagged rules: a regex cached under a freed address would be used for whichever rule lands there")
         run.guard("C07.via.C06.3.cache-key-validity", cfg, lambda: _C06c.rule_cache_key(bc, F, cfg))
+        bns = run.borrow("C01", why="every tagged rule that was parsed stays in tagged_filters_all: nothing prunes the list after the routing")
+        run.guard("C07.via.C01.5.routing-total", cfg + "/no-shrink", lambda: _C01.rule_no_shrink(bns, F, cfg))
         be = run.borrow("C01", why="rules that differ only in their tag are different rules: no entry point may de-duplicate them away")
         run.guard("C07.via.C01.9.entry-points", cfg, lambda: _C01.rule_entry_points(be, F, cfg))
 
@@ -169,8 +172,14 @@ def rule_gate_shape(run, F, cfg):
                  if re.search(r"unwrap_or\(.*Option::map\(.*\.tag", e)]
             g_ok = any(v == 1 and "arg:active_tags" in e for e, v in g)
             if not g and not g_ok:
-                # alternative spelling: explicit match on filter.tag
-                g_ok = any(".tag" in e and "arg:active_tags" in e and v == 1 for e, v in conds.items())
+                # alternative spelling: explicit match on filter.tag -- an untagged rule (None arm) passes by
+                # default, a tagged one only under active_tags.contains(<its tag>)
+                td = [v for e, v in conds.items() if re.search(r"^discr\((std::option::Option::as_ref\()?.*\.tag\)+$", e)]
+                if td and all(v == 0 or v == ("not", (1,)) for v in td):
+                    g_ok = True
+                else:
+                    g_ok = any(re.search(r"HashSet::contains\(arg:active_tags, .*\.tag", e) and v == 1
+                               for e, v in conds.items())
             # default for untagged rules is `true`; the closure is active_tags.contains(tag), not negated
             for e, v in g:
                 mm = re.search(r"closure\[([^\]]+)\]\(.*\), (\w+)\)$", e)
@@ -191,6 +200,9 @@ def rule_gate_shape(run, F, cfg):
         found = False
         for c in cl:
             for b, t in c.calls(r"HashSet::contains$"):
+                found = True
+        for b, t in f.calls(r"HashSet::contains$"):
+            if f.expr_operand(t["args"][0]) == "arg:active_tags" and ".tag" in f.expr_operand(t["args"][1]):
                 found = True
         run.ob("C07.2.gate-shape", f"{name.split('::')[-1]}:contains", found,
                f"{name}: tag gate closure calls HashSet::contains(active_tags, tag)", config=cfg)
